@@ -5,7 +5,7 @@
 TIER=${1:-quick}
 cd /verif
 for d in /verif/seeded/*/; do
-  name=$(basename $d); id=$(echo $name | cut -c1-3)
+  name=$(basename $d); id=$(python3 -c "import json,sys; print(json.load(open('$d/meta.json')).get('check') or '$name'[:3])" 2>/dev/null || echo $name | cut -c1-3)
   if grep -q '"obsolete"' $d/meta.json 2>/dev/null; then echo "OBSOLETE $name (the change no longer breaks the property on the repaired tree, see meta.json)"; continue; fi
   WT=/tmp/matrix-$name
   git -C /repo worktree remove --force $WT >/dev/null 2>&1
